@@ -35,7 +35,7 @@ META = {
     ],
     "bounds": {"skeletons": "2 and 3 leaves exhaustively (operators x unary signs x parenthesisations), 4 leaves seeded sample (thorough: more)", "leaves": "all rationals (symbolic); leaves in exponent position: integers in [0,2] (realised)", "ill-formed": "all token sequences of length <= 4 (thorough 5) over a 9-symbol alphabet that a reference grammar with implicit multiplication rejects"},
     "enumerated_axes": [{"axis": "expression skeletons", "exhaustive": False}, {"axis": "spelling variants", "exhaustive": False}, {"axis": "ill-formed token sequences", "exhaustive": True}],
-    "outside_claim": ["the no-code-execution / no-I/O clause (a property of all byte strings through the C tokenizer, observable only by audit hooks at run time; no symbolic encoding within reach)", "uncertainty notation (C19)", "fuzz strings"],
+    "outside_claim": ["the no-execution clause is decided on a fixed list of hostile strings only (H07.e): the set of all strings is not enumerable and string inputs cannot be made symbolic", "uncertainty notation (C19)", "fuzz strings"],
 }
 
 # "%" is not an operator of parse_expression: the registry preprocesses it into the unit percent
@@ -272,6 +272,99 @@ def h_ill_formed(eng, seqs):
         eng.fail(f"ill-formed-yields-a-value:{src!r}", detail=repr(r))
 
 
+def h_preprocessors(eng):
+    """user preprocessors rewrite the text first, in list order, for expressions and for units"""
+    import pint
+
+    x = eng.real("x")
+    eng.assume(x > 0)
+    ureg = pint.UnitRegistry(non_int_type=eng.ntype, preprocessors=[lambda s: s.replace("EUR", "KM"), lambda s: s.replace("KM", "kilometer")])
+    lit = eng.lit(x)
+    r = ureg.parse_expression(f"{lit} EUR")
+    eng.prove(And(str(r.units) == "kilometer", Eq(r.magnitude, x)), "preprocessors-applied-in-order:expression")
+    r = ureg.Quantity(f"{lit} EUR / second")
+    eng.prove(And(str(r.units) == "kilometer / second", Eq(r.magnitude, x)), "preprocessors-applied:Quantity")
+    eng.prove(str(ureg.parse_units("EUR**2")) == "kilometer ** 2", "preprocessors-applied:parse_units")
+    eng.prove(str(ureg.Unit("EUR")) == "kilometer", "preprocessors-applied:Unit")
+    ureg.preprocessors.append(lambda s: s.replace("kilometer", "mile"))
+    eng.prove(str(ureg.parse_expression(f"{lit} EUR").units) == "mile", "preprocessors-appended-later-apply")
+    plain = pint.UnitRegistry(non_int_type=eng.ntype)
+    try:
+        plain.parse_expression(f"{lit} EUR")
+    except pint.UndefinedUnitError:
+        eng.prove(True, "preprocessors-are-per-registry")
+    else:
+        eng.fail("preprocessors-leak-between-registries")
+
+
+class _Probe:
+    """an operand that records being called, indexed or asked for the attribute named in the
+    input string (arithmetic on it simply fails)"""
+
+    def __init__(self, log):
+        object.__setattr__(self, "_log", log)
+
+    def __call__(self, *a, **k):
+        self._log.append("called")
+        return 1
+
+    def __getitem__(self, k):
+        self._log.append("indexed")
+        return 1
+
+    def __getattr__(self, name):
+        if name.startswith("zz"):
+            object.__getattribute__(self, "_log").append("attribute:" + name)
+        raise AttributeError(name)
+
+
+HOSTILE = [
+    "f(2)", "f()", "f ()", "f (2)", "f[0]", "f [0]", "f.zzattr", "f . zzattr", "f.zzattr()", "f.zzattr(2)", "(f)(2)", "((f))()", "2 f()", "f(f(2))",
+    "f.zzattr.zzother", "meter.zzattr", "(2).zzattr", "2 .zzattr", "f.zzattr * 2", "2 * f.zzattr", "f(2) meter", "meter f(2)",
+    "__import__('os').system('touch {path}')", "open('{path}', 'w')", "exec(\"open('{path}','w')\")", "eval(\"open('{path}','w')\")", "().__class__.__bases__", "[f() for zz in (1,)]",
+    "(lambda: f())()", "f(*[1])", "f(**{{}})", "getattr(f, 'zzattr')", "f.__call__(2)", "f.__class__", "type(f)", "f if 1 else 2", "1 if f() else 2", "f and f()", "not f()",
+    "f; f()", "f\nf()", "f @ 2", "f |f()", "-f()", "f() ** 2", "2 ** f()", "f(2) +/- 1", "(f() +/- 1) meter", "f'{{f()}}'", "{{f()}}", "`f()`", "f$", "f()²", "f() per meter", "sq f()",
+]  # fmt: skip
+
+
+def h_no_execution(eng):
+    """no input string makes the parser call an operand, index it, look up an attribute named in
+    the string, or touch the file system: it only does arithmetic and registry look-ups"""
+    import os
+    import tempfile
+
+    ureg = regs.default(eng)
+    from pint.util import ParserHelper
+
+    tmp = tempfile.mkdtemp(prefix="pv_c07_")
+    path = os.path.join(tmp, "sentinel")
+    try:
+        for i, raw in enumerate(HOSTILE):
+            text = raw.format(path=path)
+            for how in ("parse_expression", "registry-call", "Quantity", "parse_units", "ParserHelper"):
+                log = []
+                probe = _Probe(log)
+                try:
+                    if how == "parse_expression":
+                        ureg.parse_expression(text, f=probe)
+                    elif how == "registry-call":
+                        ureg(text, f=probe)
+                    elif how == "Quantity":
+                        ureg.Quantity(text)
+                    elif how == "parse_units":
+                        ureg.parse_units(text)
+                    else:
+                        ParserHelper.from_string(text, eng.ntype)
+                except Exception:  # noqa: BLE001 - refusing is fine, whatever the error
+                    pass
+                eng.prove(not log, f"no-execution:{how}:{i:02d}:{raw[:24]}")
+                eng.prove(not os.path.exists(path), f"no-file-system-effect:{how}:{i:02d}")
+    finally:
+        import shutil
+
+        shutil.rmtree(tmp, ignore_errors=True)
+
+
 MIN_DISCHARGED = {"H07.a": 3000, "H07.b": 100, "H07.d": 500}
 
 
@@ -360,4 +453,6 @@ def cases(tier, seed):
         seqs = seqs[:8000] + rnd.sample(seqs[8000:], 22000)
     for i in range(0, len(seqs), 400):
         out.append(Case("H07.d", f"{i:06d}", M, "h_ill_formed", {"seqs": seqs[i : i + 400]}, validate=0, weight=3.0))
+    out.append(Case("H07.e", "no-execution", M, "h_no_execution", {}, kind="conc"))
+    out.append(Case("H07.c", "preprocessors", M, "h_preprocessors", {}, validate=1))
     return out
